@@ -226,6 +226,25 @@ func WorkerMain(prop, tier string, seed uint64, scns []int, outPath, tmp string,
 		select {
 		case <-finished:
 		case <-time.After(to):
+			// A deadlock and a scenario that is merely slow on a loaded machine both show goroutines waiting for locks
+			// at this instant. What tells them apart is for how long: the runtime annotates a goroutine that has been
+			// blocked for a minute or more ("sync.Mutex.Lock, 2 minutes"). So the verdict is taken no earlier than 75 s
+			// into the scenario, and only such goroutines count; anything else is inconclusive.
+			late := false
+			if to < 75*time.Second {
+				select {
+				case <-finished:
+					late = true
+				case <-time.After(75*time.Second - to):
+				}
+			}
+			if late {
+				c.Incon(fmt.Sprintf("scenario exceeded %s (it finished a little later)", to))
+				c.emit(Rec{T: "done", Scn: scn, Part: part.Name, Local: local, Counts: c.counts, Incon: c.incon})
+				c.emit(Rec{T: "abort", Scn: scn})
+				f.Close()
+				os.Exit(7)
+			}
 			buf := make([]byte, 4<<20)
 			buf = buf[:runtime.Stack(buf, true)]
 			dump := string(buf)
@@ -764,6 +783,9 @@ func BlockedRosmar(dump string) string {
 		st := m[1]
 		if !(strings.HasPrefix(st, "sync.Mutex.Lock") || strings.HasPrefix(st, "semacquire")) {
 			continue
+		}
+		if !strings.Contains(st, "minute") {
+			continue // waiting for less than a minute: contention, not evidence of a deadlock
 		}
 		if fn := innermostRosmar(b); fn != "" {
 			found = append(found, fn)
